@@ -18,7 +18,10 @@
     It is FALSE of the code (hence of the faithful model) in ONE situation, recorded as a known
     finding with a machine-checked refutation below:
       - a steady-state run in the history           ([C04_steady_refuted]).
-    The [_partial] theorems carry exactly this guard: [Forall no_steady ops] for whole histories;
+    The [_partial] theorems carry exactly this guard: [Forall no_steady ops] for whole histories
+    (REFINED at the end of this file to [ok_hist]: steady-state runs are admitted when they are issued
+    on an integrator at its own time 0 and directly followed by update_variable(s) / clear_results --
+    [C04_history_invariant_steady_partial]; what is left outside is exactly the finding's guard);
     the per-operation theorems are stated for every state satisfying [Inv2], the invariant that
     [C04_history_invariant_partial] establishes for every state reachable without a steady-state run.
     Three further defects were REPAIRED in /repo (fixes/C04-timeshift.diff, C04-override-twice.diff,
@@ -27,7 +30,7 @@
     Rows are stated in ABSOLUTE time: [appended .. s s' h rest] says the new rows are
     [(t + shift, flow p (h + shift) y0 (t - h))] with [h + shift == reached s]. *)
 From Coq Require Import QArith List Bool NArith.
-From Sim Require Import Integrator Simulator Protocol SimExec GenSimFacts SimProofs ProtocolProofs.
+From Sim Require Import Integrator Simulator Protocol SimExec GenSimFacts SimProofs ProtocolProofs SteadyProofs.
 Import ListNotations.
 Open Scope Q_scope.
 
@@ -218,3 +221,123 @@ Example C04_nonvacuous :
   /\ has_errors _ _ (xrun gen_sim_facts (xnew [1; 0] [1; 0; 0; 0]) ops) = false.
 Proof. cbv zeta. split; [repeat constructor|]. vm_compute. split; reflexivity. Qed.
 Print Assumptions C04_nonvacuous.
+
+(** * what IS well defined around a steady-state run (refinement of the guard of the known finding)
+
+    [Wf s] (SteadyProofs.v): the result of [s] ends in a row (or there is no result and no time shift) and the
+    accumulated index is strictly increasing -- NOTHING is assumed about the integrator.  Every [Inv2] state is
+    [Wf]; the state right after a steady-state run is [Wf] but not [Inv2] (the integrator was reset). *)
+
+(** update_variable(s) in ANY well-formed state, in particular right after a steady-state run: it returns, applies
+    the override to the state the next segment has to start from ([start_state]: the last reported row, or the
+    overridden state while an override is pending), re-initialises the integrator THERE (its time 0 = the time
+    reached), leaves result / parameters / errors untouched -- and the invariant of continued simulation holds
+    again, so C04_simulate_partial / C04_time_course_partial / C14_* apply to whatever is simulated next *)
+Theorem C04_override_after_any_state :
+  forall (Y P O : Type) (yovr : Y -> O -> Y) (s : sim Y P) (o : O),
+    Wf Y P s ->
+    Inv2 Y P (fst (update_variables Y P O yovr gen_sim_facts s o))
+    /\ snd (update_variables Y P O yovr gen_sim_facts s o) = Done
+    /\ i_y0 (s_int (fst (update_variables Y P O yovr gen_sim_facts s o))) = yovr (start_state Y P s) o
+    /\ i_t0 (s_int (fst (update_variables Y P O yovr gen_sim_facts s o))) = 0
+    /\ index_of Y P (fst (update_variables Y P O yovr gen_sim_facts s o)) = index_of Y P s
+    /\ reached Y P (fst (update_variables Y P O yovr gen_sim_facts s o)) = reached Y P s
+    /\ s_errs (fst (update_variables Y P O yovr gen_sim_facts s o)) = s_errs s
+    /\ s_mp (fst (update_variables Y P O yovr gen_sim_facts s o)) = s_mp s
+    /\ s_pars (fst (update_variables Y P O yovr gen_sim_facts s o)) = s_pars s
+    /\ s_vars (fst (update_variables Y P O yovr gen_sim_facts s o)) = s_vars s.
+Proof. exact (fun Y P O yovr => override_resyncs Y P O yovr gen_sim_facts (good_of_pinned _ C04_facts_pinned)). Qed.
+Print Assumptions C04_override_after_any_state.
+
+(** a steady-state run on an integrator that is at its own time 0 (new simulator, or directly after
+    update_variable(s) / clear_results -- the complement is the guard of the known finding): it always returns and
+    leaves a well-formed state; when it finds a steady state exactly ONE row is appended, stamped at least one
+    step (100) later than the time reached, so the accumulated index stays strictly increasing; earlier segments
+    and the simulator's own fields are untouched, the parameters in force are recorded *)
+Theorem C04_steady_on_fresh_integrator :
+  forall (Y P : Type) (flow : P -> Q -> Y -> Q -> Y) (conv : Y -> Y -> bool) (s : sim Y P),
+    Inv2 Y P s -> i_t0 (s_int s) == 0 ->
+    Wf Y P (fst (simulate_to_steady_state Y P flow conv gen_sim_facts s))
+    /\ snd (simulate_to_steady_state Y P flow conv gen_sim_facts s) = Done
+    /\ (has_errors Y P s = false -> has_errors Y P (fst (simulate_to_steady_state Y P flow conv gen_sim_facts s)) = false ->
+        exists t y,
+          s_vars (fst (simulate_to_steady_state Y P flow conv gen_sim_facts s))
+            = Some (match s_vars s with None => [] | Some l => l end ++ [[(t, y)]])
+          /\ index_of Y P (fst (simulate_to_steady_state Y P flow conv gen_sim_facts s)) = index_of Y P s ++ [t]
+          /\ reached Y P s + 100 <= t
+          /\ reached Y P (fst (simulate_to_steady_state Y P flow conv gen_sim_facts s)) = t
+          /\ s_pars (fst (simulate_to_steady_state Y P flow conv gen_sim_facts s)) = Some (pars_list Y P s ++ [s_mp s])
+          /\ s_shift (fst (simulate_to_steady_state Y P flow conv gen_sim_facts s)) = s_shift s
+          /\ s_y0 (fst (simulate_to_steady_state Y P flow conv gen_sim_facts s)) = s_y0 s
+          /\ s_mp (fst (simulate_to_steady_state Y P flow conv gen_sim_facts s)) = s_mp s).
+Proof. exact (fun Y P flow conv => steady_fresh Y P flow conv gen_sim_facts (good_steady_of_pinned _ C04_facts_pinned)). Qed.
+Print Assumptions C04_steady_on_fresh_integrator.
+
+(** histories WITH steady-state runs.  [ok_hist true ops] (SteadyProofs.v, a syntactic condition): every
+    simulate_to_steady_state is issued while the integrator is known to be at its own time 0 (start of the history,
+    or directly after update_variable(s) / clear_results, update_parameter(s) in between allowed) and is directly
+    followed by update_variable(s) -- or it is directly followed by clear_results.  For every such history over the
+    8-operation alphabet the invariant holds at the end and the accumulated index is strictly increasing.
+    (Still partial: a steady-state run after something was integrated, or followed by a simulating call, is the
+    known finding -- [C04_steady_refuted].) *)
+Theorem C04_history_invariant_steady_partial :
+  forall (Y P U O : Type) (flow : P -> Q -> Y -> Q -> Y) (solve_ok : P -> Q -> Y -> Q -> bool)
+         (conv : Y -> Y -> bool) (pupd : P -> U -> P) (yovr : Y -> O -> Y)
+         (y0 : Y) (p : P) (ops : list (op U O)),
+    ok_hist U O true ops ->
+    Inv2 Y P (run Y P U O flow solve_ok conv pupd yovr gen_sim_facts (sim_new Y P y0 p) ops).
+Proof. exact (fun Y P U O flow solve_ok conv pupd yovr => history_invariant_steady Y P U O flow solve_ok conv pupd yovr gen_sim_facts (good_of_pinned _ C04_facts_pinned) (good_steady_of_pinned _ C04_facts_pinned)). Qed.
+Print Assumptions C04_history_invariant_steady_partial.
+
+Theorem C04_axis_increasing_steady_partial :
+  forall (Y P U O : Type) (flow : P -> Q -> Y -> Q -> Y) (solve_ok : P -> Q -> Y -> Q -> bool)
+         (conv : Y -> Y -> bool) (pupd : P -> U -> P) (yovr : Y -> O -> Y)
+         (y0 : Y) (p : P) (ops : list (op U O)),
+    ok_hist U O true ops ->
+    incr (index_of Y P (run Y P U O flow solve_ok conv pupd yovr gen_sim_facts (sim_new Y P y0 p) ops)).
+Proof. exact (fun Y P U O flow solve_ok conv pupd yovr => history_axis_increasing_steady Y P U O flow solve_ok conv pupd yovr gen_sim_facts (good_of_pinned _ C04_facts_pinned) (good_steady_of_pinned _ C04_facts_pinned)). Qed.
+Print Assumptions C04_axis_increasing_steady_partial.
+
+(** requested ONCE at ANY positive gap.  The model compares times exactly -- there is no tolerance anywhere -- and
+    this is what the pinned shape of Scipy.integrate_time_course ([time_points[0] != self.t0]) demands: a time
+    course whose first point is later than the time reached by ANY d > 0 (however small, at any absolute time,
+    also in shifted integrator time after an override) appends exactly the requested points, the first one included *)
+Theorem C04_tiny_gap_partial :
+  forall (Y P : Type) (flow : P -> Q -> Y -> Q -> Y) (solve_ok : P -> Q -> Y -> Q -> bool)
+         (s : sim Y P) (d : Q) (later : list Q),
+    (forall p t y t1, solve_ok p t y t1 = true) -> Inv2 Y P s -> has_errors Y P s = false ->
+    0 < d -> incr ((reached Y P s + d) :: later) ->
+    exists s2, simulate_time_course Y P flow solve_ok gen_sim_facts s ((reached Y P s + d) :: later) = (s2, Done)
+      /\ Inv2 Y P s2 /\ has_errors Y P s2 = false
+      /\ Qeql (index_of Y P s2)
+              ((match s_vars s with None => [reached Y P s] | Some _ => index_of Y P s end) ++ (reached Y P s + d) :: later)
+      /\ reached Y P s2 == lastq ((reached Y P s + d) :: later) 0.
+Proof. exact (fun Y P flow solve_ok => tc_tiny_gap Y P flow solve_ok gen_sim_facts (good_of_pinned _ C04_facts_pinned)). Qed.
+Print Assumptions C04_tiny_gap_partial.
+
+(** ... at the level of the integrator: the current time is put in front of the requested points unless the first
+    one EQUALS it *)
+Theorem C04_prepend_exact :
+  forall (Y P : Type) (flow : P -> Q -> Y -> Q -> Y) (solve_ok : P -> Q -> Y -> Q -> bool)
+         (p : P) (ig : integ Y) (t : Q) (tp : list Q),
+    ~ t == i_t0 ig ->
+    integrate_time_course Y P flow solve_ok p ig (t :: tp)
+    = match solve_ivp Y P flow solve_ok p (i_y0 ig) (i_t0 ig :: t :: tp) with
+      | IOk tc => (mkInteg (lastq (map fst tc) (i_t0 ig)) (last (map snd tc) (i_y0 ig)) (i_orig ig), IOk tc)
+      | r => (ig, r)
+      end.
+Proof. exact itc_prepend_exact. Qed.
+Print Assumptions C04_prepend_exact.
+
+(** non-vacuity: a "steady state" reported at t = 200 in a state other than the initial one (x' = y + time with
+    y = -150: the iterates at t = 100 and t = 200 coincide), an override of y alone, a continued simulation: the
+    history meets [ok_hist], x continues from the reported row (-9999), the axis goes on from 200 *)
+Example C04_steady_override_nonvacuous :
+  let ops : list xop := [OSteady; OUpdVar [(1%nat, 1)]; OSim 202 (Some 2%nat)] in
+  ok_hist _ _ true ops
+  /\ xindex (xrun gen_sim_facts (xnew [1; -150] [1; 0; 1; 0]) ops) = [200; 201; 202]
+  /\ (match s_vars (xrun gen_sim_facts (xnew [1; -150] [1; 0; 1; 0]) ops) with
+      | Some l => map (map (fun r => map Qred (snd r))) l | None => [] end)
+     = [[[-9999; -150]]; [[-19595 # 2; 1]; [-9595; 1]]].
+Proof. cbv zeta. split; [cbn; auto|]. vm_compute. split; reflexivity. Qed.
+Print Assumptions C04_steady_override_nonvacuous.
